@@ -380,10 +380,14 @@ def run_file(ctx, tmp, kind, text, tag, expect=None):
         kw["limits"] = plain(parsed["limits"])
     ccomp, ce = sysdesc.quiet_call(cls, "X", **kw)
     cimpl = exc_name(ce)
-    if cimpl != impl:
+    if (cimpl == "ok") != (impl == "ok"):
         ctx.oracle(case, "eq_ctor", kind, trig, {"from_file": impl, "constructor": cimpl, "P": P})
         return
     if impl != "ok":
+        if cimpl != impl:       # both refuse the parameters, with different exception classes: noted, not a violation
+            ctx.stats["both_refuse_class_differs:%s:%s/%s" % (kind, impl, cimpl)] += 1
+            if len(ctx.notes) < 5:
+                ctx.notes.append("both refuse, classes differ (%s from_file: %s, constructor: %s): %r" % (kind, impl, cimpl, P))
         return
     cobs = observe_comp(kind, ccomp, tmp)
     for part in ("params", "limits", "solve"):
@@ -521,7 +525,7 @@ def run(ctx):
     try:
         check_schema(ctx)
         known_witnesses(ctx, tmp)
-        stream(ctx, tmp, ctx.n(1, 14))
+        stream(ctx, tmp, ctx.n(4, 60))
     finally:
         shutil.rmtree(tmp, ignore_errors=True)
 
